@@ -120,12 +120,20 @@ class Tr:
             if name not in self.allowed:
                 raise OutOfGrammar("variable %s" % name)
             return name
+        if k == "MemberExpr":
+            # a struct field named like an allowed variable (`(*copp)->delta`)
+            name = n.get("name")
+            if name not in self.allowed:
+                raise OutOfGrammar("field %s" % name)
+            return name
         if k == "UnaryOperator":
             op = n.get("opcode")
             if op == "-":
                 return "(- %s)" % self.e(n["inner"][0])
             if op == "++" and not n.get("isPostfix"):
                 return "(%s + 1)" % self.e(n["inner"][0])
+            if op == "--" and not n.get("isPostfix"):
+                return "(%s - 1)" % self.e(n["inner"][0])
             raise OutOfGrammar("unary %s" % op)
         if k == "BinaryOperator":
             op = n.get("opcode")
@@ -304,6 +312,21 @@ def extract(bdir):
     out.append("/-- call_out: `call_out_time++` stands before the visit of the slot (the callbacks) -/\n"
                "def sweepIncBeforeVisit : Bool := %s\n" % ("true" if inc[0] < vis[0] else "false"))
 
+    # the two "is the head due" tests: `--call_list[tm]->delta == 0` and `call_list[tm]->delta == 0`
+    vcond = kids(bs[vis[0]])[0]
+    need("call_out.head", strip(vcond).get("kind") == "BinaryOperator" and strip(vcond).get("opcode") == "&&",
+         "`call_list[tm] && --call_list[tm]->delta == 0` not found")
+    e, p = tr("call_out.head", ("delta",), fn)
+    emit("hd", "headDue", ["delta"], "Bool", "decide (%s)" % p(strip(vcond)["inner"][1]), strip(vcond)["inner"][1],
+         "call_out: the head is decremented and is due when (`delta` = value before the decrement)")
+    dos = [x for x in kids(bs[vis[0]])[1:2] if x.get("kind") == "DoStmt"]
+    need("call_out.do", len(dos) == 1, "the do/while is not the body of the `if`")
+    dcond = strip(kids(dos[0])[1])
+    need("call_out.do", dcond.get("kind") == "BinaryOperator" and dcond.get("opcode") == "&&",
+         "`while (call_list[tm] && call_list[tm]->delta == 0)` not found")
+    emit("nd", "nextDue", ["delta"], "Bool", "decide (%s)" % p(dcond["inner"][1]), dcond["inner"][1],
+         "call_out: the do/while continues while the new head has")
+
     # ---- get_all_call_outs (inline copy of time_left) ----------------------------------------------------
     fn = ast_function(bdir, SRC, "get_all_call_outs")
     stmts = kids(body_of(fn))
@@ -328,4 +351,55 @@ def extract(bdir):
     emit("it", "infoThen", list(iv), "Int", e(th["inner"][1]), th, "get_all_call_outs")
     e, p = tr("get_all_call_outs.else", iv, fn)
     emit("ie", "infoElse", list(iv), "Int", e(el["inner"][1]), el, "get_all_call_outs")
+
+    # ---- new_call_out: ordered insert comparison ------------------------------------------------------
+    fn = ast_function(bdir, SRC, "new_call_out")
+    fors = [n for n in walk(body_of(fn)) if n.get("kind") == "ForStmt"
+            and any(x.get("kind") == "MemberExpr" and x.get("name") == "delta" for x in walk(n))]
+    need("new_call_out.insert", len(fors) == 1, "the insertion loop not found")
+    ifs = [n for n in walk(fors[0]) if n.get("kind") == "IfStmt"]
+    need("new_call_out.insert", len(ifs) == 1, "the `if ((*copp)->delta >= delay)` test not found")
+    e, p = tr("new_call_out.insert", ("delta", "delay"), fn)
+    emit("ins", "insertBefore", ["delta", "delay"], "Bool", "decide (%s)" % p(kids(ifs[0])[0]), kids(ifs[0])[0],
+         "new_call_out: insert before the first entry with")
+
+    # ---- by-handle efuns: slot of a handle --------------------------------------------------------------
+    hexprs = {}
+    for f in ("remove_call_out_by_handle", "find_call_out_by_handle"):
+        fn = ast_function(bdir, SRC, f)
+        ands = [n for n in walk(body_of(fn)) if n.get("kind") == "BinaryOperator" and n.get("opcode") == "&"
+                and ref_name(n["inner"][0]) == "handle"]
+        need(f + ".slot", len(ands) >= 2, "`handle & (CALLOUT_CYCLE_SIZE - 1)` (list head and time_left argument) not found")
+        e, p = tr(f + ".slot", ("handle",), fn)
+        for a in ands:
+            hexprs.setdefault(e(a), a)
+    need("by_handle.slot", len(hexprs) == 1, "the copies of the handle->slot expression differ: %s" % sorted(hexprs))
+    hx, hn = list(hexprs.items())[0]
+    emit("hs", "handleSlotExpr", ["handle"], "Int", hx, hn, "remove/find_call_out_by_handle")
+
+    # ---- `return (int) time_left (...)` in the four efun helpers --------------------------------------------
+    casts = {}
+    for f in ("remove_call_out", "remove_call_out_by_handle", "find_call_out_by_handle", "find_call_out"):
+        fn = ast_function(bdir, SRC, f)
+        rets = [n for n in walk(body_of(fn)) if n.get("kind") == "ReturnStmt"
+                and any(x.get("kind") == "CallExpr" and ref_name(x["inner"][0]) is None
+                        and any(ref_name(y) == "time_left" for y in walk(x["inner"][0])) for x in walk(n))]
+        need(f + ".return", len(rets) == 1, "`return (int) time_left (...)` not found")
+        v = strip(kids(rets[0])[0])
+        if v.get("kind") == "CStyleCastExpr" and ctype(v) == "int":
+            casts[f] = "trunc32 x"
+        elif v.get("kind") == "CallExpr":
+            casts[f] = "trunc32 x" if ctype(rets[0]) == "int" else "x"
+        elif v.get("kind") == "ImplicitCastExpr" and v.get("castKind") == "IntegralCast" and ctype(v) == "int":
+            casts[f] = "trunc32 x"
+        else:
+            raise TieBroken("c10:%s.return" % f, "returned expression is not (a cast of) the time_left call")
+    need("efuns.return", len(set(casts.values())) == 1, "the four efun helpers convert time_left differently: %s" % casts)
+    out.append("/-- remove/find_call_out[_by_handle]: `return (int) time_left (...)` -/\ndef efunResult (x : Int) : Int :=\n  %s\n"
+               % list(casts.values())[0])
+
+    # ---- allocation chunk -----------------------------------------------------------------------------------
+    m = re.search(r"^#define\s+CHUNK_SIZE\s+(\d+)\s*$", text, re.M)
+    need("CHUNK_SIZE", m is not None, "#define CHUNK_SIZE not found")
+    out.append("/-- `#define CHUNK_SIZE` (pending_call_t structures are allocated in chunks) -/\ndef chunkSize : Nat := %s\n" % m.group(1))
     return "\n".join(out)
